@@ -217,3 +217,17 @@ def run(run):
             run.sample({"source": driver.src_of(bench), "defaults": model.defaults(bench.fam, bench.fam["root"]).to_json()})
         if run.counters["violations"] > 30:
             break
+
+
+def replay(run, rec):
+    w = rec["witness"]
+    if "fam" not in w:
+        f2_probe(run)
+        return
+    fam = common.from_json(w["fam"])
+    d = common.scratch_dir("bvf_replay_")
+    bench = harness.Bench(fam, VARIANTS, d, instrument=())
+    bench.skeleton = "replay"
+    kw = {k: model.val_from_json(v) for k, v in (w.get("kwargs") or {}).items()}
+    want = model.defaults(fam, fam["root"], overrides={k: model.copy_val(x) for k, x in kw.items()})
+    compare(run, bench, w.get("variant", "g"), kw, want, dict(w), "override_packets_compared")
